@@ -646,40 +646,29 @@ example :
 
 Full property:  ∀ script q,  Query.Scan / MapScan hand over the FIRST ROW OF THE RESULT (`Spec.rows script`) with
 a nil error, and report ErrNotFound only if the result has no row at all (a failure that ends an empty
-result is reported as that failure) — `((queryScan pp script q).row, (queryScan pp script q).err) =
-First.Spec.first script`.  This does NOT hold on the unchanged code: Iter.checkErrAndNotFound looks at the row
-count of the FIRST PAGE only (`iter.numRows == 0`), so an EMPTY first page that says has_more_pages (Cassandra
-sends such pages, e.g. under ALLOW FILTERING or over tombstones) makes Query.Scan answer ErrNotFound although
-rows follow on the next page. Hence `C15_query_scan_partial` with the hypothesis `FirstPageDecides`, and the
-counterexample `C15_cex_first_empty_page` (proposed finding KF-C15-4, fix props/C15.fix-4.diff). -/
+result is reported as that failure).  On the code as repaired for KF-C15-4 (props/C15.fix-4.diff:
+Iter.checkErrAndNotFound walks over empty pages that say has_more_pages before it tests the row count) this
+holds for EVERY script: `C15_query_scan`. (Before the repair it failed for an empty first page with
+has_more_pages — ErrNotFound although rows followed; the former `C15_query_scan_partial` /
+`C15_cex_first_empty_page`.) -/
 
 open Paging.First in
-/-- **Query.Scan / Query.MapScan = first row of the result** (partial: the first page is not an empty page with
-    has_more_pages): for every script (UNPREPARED answers first, a failure, any pages), every query: the row
-    handed over is the head of the specification's rows and the error is nil; no row in the whole result:
-    the failure that ended it, else ErrNotFound. -/
-theorem C15_query_scan_partial (pp : Nat → Nat) (script : List Reply) (q : Qry) (hd : FirstPageDecides script) :
-    ((queryScan pp script q).row, (queryScan pp script q).err) = First.Spec.first script := by
-  have h := queryScan_spec pp script false q hd
-  unfold queryScan
-  cases he : (Hist.connExec pp script false q).iter.err with
-  | some e => simp only [he] at h ⊢; exact h
-  | none =>
-    simp only [he] at h ⊢
-    cases hr : (Hist.connExec pp script false q).iter.rows with
-    | nil => simp only [hr] at h ⊢; exact h
-    | cons a as => simp only [hr] at h ⊢; exact h
+/-- **Query.Scan / Query.MapScan = first row of the result**, for every script (UNPREPARED answers, a failure,
+    any pages — EMPTY pages with has_more_pages in front included), every query with automatic paging: the row
+    handed over is the head of the specification's rows and the error is nil; no row in the whole result: the
+    failure that ended it, else ErrNotFound. -/
+theorem C15_query_scan (pp : Nat → Nat) (script : List Reply) (cached : Bool) (q : Qry) (hq : q.disableAutoPage = false) :
+    ((queryScan pp script cached q).row, (queryScan pp script cached q).err) = First.Spec.first script :=
+  queryScan_spec pp script cached q hq
 
-open Paging.First in
-/-- counterexample to the unrestricted statement (KF-C15-4): page 1 is empty with has_more_pages, page 2 holds
-    row 5: Query.Scan reports ErrNotFound and hands over nothing, the first row of the result is 5 -/
-theorem C15_cex_first_empty_page :
+/-- non-vacuity, and the former counterexample of KF-C15-4 as a regression: page 1 empty with has_more_pages,
+    page 2 holds row 5 — row 5 with a nil error, two requests; an all-empty result: ErrNotFound -/
+example :
     let q : Qry := { ident := 1, prepared := false, skipMeta := false, pageSize := 0, pageState := [], disableAutoPage := false }
-    let script : List Reply := [.page [] (some [1]), .page [5] none]
-    (queryScan (fun _ => 0) script q).row = none ∧ (queryScan (fun _ => 0) script q).err = some .notFound ∧
-    First.Spec.first script = (some 5, none) ∧ ¬ FirstPageDecides script := by
-  intro q script
-  exact ⟨by decide, by decide, by decide, by simp [script, FirstPageDecides]⟩
+    First.queryScan (fun _ => 0) [.page [] (some [1]), .page [5] none] false q =
+      ⟨some 5, none, [.exec 1 false false none none, .exec 1 false false (some [1]) none]⟩ ∧
+    (First.queryScan (fun _ => 0) [.page [] (some [1]), .page [] none] false q).err = some .notFound := by
+  decide
 
 open Paging.First in
 /-- **Query.Exec reports the outcome of the first fetch** (after any UNPREPARED round trips), for every script -/
@@ -695,11 +684,9 @@ theorem C15_exec_first_fetch (pp : Nat → Nat) (script : List Reply) (q : Qry) 
 example :
     let q : Qry := { ident := 1, prepared := true, skipMeta := true, pageSize := 10, pageState := [], disableAutoPage := false }
     let script : List Reply := [.unprepared, .page [7, 8] (some [1]), .page [9] none]
-    First.FirstPageDecides script ∧
-    First.queryScan (fun n => n / 2) script q =
+    First.queryScan (fun n => n / 2) script false q =
       ⟨some 7, none, [.prepare, .exec 1 true true none (some 10), .prepare, .exec 1 true true none (some 10)]⟩ := by
-  intro q script
-  exact ⟨by simp [script, First.FirstPageDecides], by decide⟩
+  decide
 
 
 /-! ## Cancellation at ANY moment (`Proofs/C15Cancel.lean`): with a prefetch pending, running or done, before an
